@@ -246,6 +246,39 @@ def r10_5(ctx, R, ms):
     ctx.floor("R10.5", "constructors-with-documented-limit-0", n, 1)
 
 
+def r10_6(ctx, R, ms, counter):
+    ctx.rule("R10.6", "termination observers of the adapters: any `is_terminated` / `is_done` / `is_empty` style observer "
+                      "defined on an adapter struct (inherent or through a trait such as FusedStream) that reports 'finished' "
+                      "reads the upstream Option AND the whole queue -- running futures and, for the ordered adapters, parked "
+                      "outputs -- otherwise a consumer that trusts it stops while items are still owed")
+    import c15
+    structs = {}
+    for m in ms:
+        if m.struct:
+            structs[m.struct] = (m.qfield, m.qty or "")
+    n = 0
+    for b in ctx.facts.fn_bodies():
+        mm = re.match(r"^<?([\w:]+)(?:::<[^>]*>|<.*> as [\w:]+>)::(is_terminated|is_done|is_finished)$", b.path)
+        if not mm or mm.group(1) not in structs:
+            continue
+        n += 1
+        qfield, qty = structs[mm.group(1)]
+        ordered = qty.startswith("futures_ordered")
+        s_ = c15.state_set(ctx, b, counter, set())
+        fl = ctx.flow(b)
+        from lib_inter import deep_leaves
+        lv = deep_leaves(ctx, b, fl.local_expr(0), 4)
+        for bb in range(b.n):
+            t = b.term(bb)
+            if t["k"] == "switch" and not b.is_cleanup(bb):
+                lv |= deep_leaves(ctx, b, fl.operand_expr(t["discr"]), 4)
+        reads_stream = any(x[0] == "field" and x[1] == ".stream" for x in lv) or any(x[0] == "call" and re.search(r"Option::<.*>::(is_none|is_some)$", x[1] or "") for x in lv)
+        ok = "running" in s_ and (("heap" in s_) or not ordered) and reads_stream
+        ctx.ob("R10.6", b, "reports-finished-only-when-nothing-is-owed", ok, d_loc(b),
+               "reads upstream: %s; queue state read: %s (needs running%s)" % (reads_stream, sorted(s_), " + heap" if ordered else ""))
+    ctx.ob("R10.6", "<crate>", "termination observers on adapter structs examined", True, "", "%d" % n)
+
+
 def run(ctx):
     R = roles(ctx)
     R.insert_fn
@@ -269,4 +302,5 @@ def run(ctx):
         c09.r9_1(ctx, R, ms)
         ctx.rule("R9.1", "see C09 R9.1 (shared): every adapter constructor builds its queue by the bounded `new` applied to its own limit parameter")
         c09.r9_4(ctx, R, res["INSERT"][0], res["INSERT"][1])
+        r10_6(ctx, R, ms, res["INSERT"][0])
         ctx.rule("R9.4", "see C09 R9.4 (shared): the limit reaches the slot storage unchanged")
